@@ -12,7 +12,7 @@ RULE = ('a valid config of 2-10 statements (flat bindings, blocks, macros, impor
         'temporary files) over 2-3 registered probes; one fault injected at a uniformly chosen statement position of the '
         'whole include tree, of a kind drawn from {bad value, missing value, unbalanced bracket, bad selector, missing "=", '
         'unknown parameter, unknown configurable, unknown reference, denylisted parameter, missing include, missing import, '
-        'bad block member, tokenizer error at the first token, inconsistent dedent}; after the failed call the store, '
+        'bad block member, a well-formed block whose k-th member cannot be applied, an ambiguous name as binding target or block header, tokenizer error at the first token, inconsistent dedent}; after the failed call the store, '
         'provenance, recorded imports, lock flag and active scope are observed, a second (valid) text is parsed, and the '
         'flattened prefix is parsed in a fresh interpreter for comparison. non-trivial = the fault is not at the first '
         'statement; distinct = canonical case')
@@ -26,7 +26,8 @@ EXPLANATION = ('Lean theorems about applyStmts (failure stops the loop; the stat
                'run with real files + fresh-interpreter comparison of the flattened prefix.')
 
 FAULTS = S.SYNTAX_FAULTS + ['unknown_param', 'unknown_cfg', 'unknown_ref', 'denylisted', 'bad_include', 'bad_import',
-                            'bad_block_member', 'tok_error_first', 'bad_dedent']
+                            'bad_block_member', 'tok_error_first', 'bad_dedent', 'block_member_fails',
+                            'block_member_fails', 'ambiguous_cfg']
 
 
 def gen_specs(rng, regs, depth, counter):
@@ -120,6 +121,36 @@ def render(rng, specs, regs, fault, files, flat):
         fault.append(('block_prefix', reg['_selector'], good))
         if good:
           flat.append(('block', '', reg['_selector'], good))
+      elif kind == 'block_member_fails':
+        # a well-formed block whose k-th member cannot be applied: the members written before it took effect (in
+        # written order), those after it did not
+        regnk = [r for r in withp if not r['sig']['varkw']] or [r for r in regs if not r['sig']['varkw']]
+        if not regnk:
+          b.add('a/zz.q.x = 1', {'k': 'bind', 'scope': 'a', 'sel': 'zz.q', 'arg': 'x', 'val': 1})
+        else:
+          reg2 = rng.choice(regnk)
+          cls2 = [n for n, k in G.param_classes(reg2).items() if k == 'valid']
+          rng.shuffle(cls2)
+          nb = rng.randint(0, min(2, len(cls2)))
+          before = [(a, G.gen_value(rng, 1)) for a in cls2[:nb]]
+          after = [(a, G.gen_value(rng, 1)) for a in cls2[nb:nb + rng.randint(0, 2)]] + [('nope2', 5)][:rng.randint(0, 1)]
+          bad_arg = reg2['deny'][0] if (reg2['deny'] and rng.random() < 0.5) else 'nope'
+          sc = rng.choice(['', 'a'])
+          S.add_block(b, sc, reg2['_selector'], before + [(bad_arg, 1)] + after)
+          if before:
+            flat.append(('block', sc, reg2['_selector'], before))
+      elif kind == 'ambiguous_cfg':
+        # a name that several registered configurables end with: a KeyError, located like any semantic error
+        leaves = {}
+        for r in regs:
+          leaves.setdefault(r['_selector'].rsplit('.', 1)[-1], []).append(r)
+        amb = [l for l, rs in leaves.items() if len(rs) > 1]
+        if not amb:
+          b.add('a/zz.q.x = 1', {'k': 'bind', 'scope': 'a', 'sel': 'zz.q', 'arg': 'x', 'val': 1})
+        elif rng.random() < 0.5:
+          b.add(amb[0] + '.x = 1', {'k': 'bind', 'scope': '', 'sel': amb[0], 'arg': 'x', 'val': 1})
+        else:
+          S.add_block(b, '', amb[0], [('x', 1)])
       elif kind == 'tok_error_first':
         b.add(rng.choice(["'abc", '"unterminated', '$$$ = 1', '?']), {'k': 'syntax'})
       elif kind == 'bad_dedent':
